@@ -43,15 +43,16 @@ def parseOp (tok : String) : Op :=
     let auth? := match a.toList with
       | [c] => parseAuth c
       | _ => none
-    let opts? : Option ReqOpts :=
-      if m == "g" then some ⟨false, false⟩ else if m == "h" then some ⟨true, false⟩
-      else if m == "c" then some ⟨false, true⟩ else none
+    let opts? : Option (ReqOpts × Bool) :=
+      if m == "g" then some (⟨false, false⟩, false) else if m == "h" then some (⟨true, false⟩, false)
+      else if m == "c" then some (⟨false, true⟩, false) else if m == "e" then some (⟨false, false⟩, true)
+      else none
     let mode? : Option Mode :=
       if mode == "f" then some .full
       else if mode.startsWith "p" then ((mode.drop 1).toString.toNat?).map Mode.part
       else none
     match auth?, opts?, mode?, parseScript script with
-    | some auth, some o, some md, some s => .req auth o md s
+    | some auth, some (o, e), some md, some s => .req auth o e md s
     | _, _, _, _ => .bad
   | ["par", auths] =>
     let cs := auths.toList
